@@ -806,3 +806,50 @@ for _c in (RECORD_CLEAR, RECORD_RESET):
     _c.globals = dict(_c.globals, names_empty=FnV(lambda ex, s: ForAll([_k], Not(Select(s.fields['_dynamicNames'].fields['set'], _k))),
                                                   'names_empty'))
 CONTRACTS = CONTRACTS + [RECORD_GETPOS, RECORD_CLEAR, RECORD_RESET]
+
+
+# ---- record isValue: every component that is neither OPTIONAL nor DEFAULT is a value ----------------------------------------------
+from pyvc.core import PRecSeq
+NT_COLS = ('isDefaulted', 'isOptional')
+
+
+def _nt_record_self(ex, env):
+    nts = env['namedTypes']
+    ex.assume(ForAll([_i], Implies(And(_i >= 0, _i < nts.length), And(Or(nts.cols[0][_i] == 0, nts.cols[0][_i] == 1),
+                                                                       Or(nts.cols[1][_i] == 0, nts.cols[1][_i] == 1)))))
+    ct = Obj('NamedTypes', {'namedTypes': nts, '__truthy__': nts.length > 0}, name='componentType')
+    if ex.choose(IS_SCHEMA, 'schema-object'):
+        cv = NOVALUE
+    else:
+        cv = sym_list(LLEN0, LID0)
+        ex.assume(LLEN0 >= 0)
+        cv.methods['__iter__'] = lambda ex2, self: ElemSeq([_list_as_seq(ex2, self)], names=('__id__',))
+    return Obj('Sequence', {'_componentValues': cv, 'componentType': ct}, name='self')
+
+
+def _list_as_seq(ex, lst):
+    """the items of the slot list as a sequence (iteration order = positions)"""
+    vals = ex.fresh('slots', S)
+    n, ids = lst.fields['length'], lst.fields['ids']
+    ex.assume(And(z3.Length(vals) == n, ForAll([_i], Implies(And(_i >= 0, _i < n), vals[_i] == Select(ids, _i)))))
+    return vals
+
+
+def _required_are_values(ex, nts, upto):
+    return ForAll([_i], Implies(And(_i >= 0, _i < toint(upto), nts.cols[0][_i] == 0, nts.cols[1][_i] == 0),
+                                And(LLEN0 > 0, good(Select(LID0, _i)))))
+
+
+RECORD_ISVALUE = record_contract(
+    id='type.univ::SequenceAndSetBase.isValue[declared]', qual='SequenceAndSetBase.isValue', prop='getter',
+    properties=['C19', 'C10'],
+    params=dict(namedTypes=PRecSeq(2, names=NT_COLS), self=PDerived(_nt_record_self)),
+    globals=dict(GR, required_are_values=FnV(_required_are_values, 'required_are_values')),
+    requires=['len(namedTypes) > 0', 'schema or LLEN0 == len(namedTypes) or LLEN0 == 0'],
+    loops={0: Loop(index='k', invariant=['required_are_values(namedTypes, k)'])},
+    ensures=[('schema-is-not-a-value', 'schema ==> result is False'),
+             # X.680: a record value has every component that is neither OPTIONAL nor DEFAULT
+             ('value-iff-every-mandatory-component-is', '(not schema) ==> result == required_are_values(namedTypes, len(namedTypes))'),
+             ('read-only', 'schema or list_unchanged(self._componentValues)')],
+    note='the declared components are a sequence of (isDefaulted, isOptional) records of any length')
+CONTRACTS = CONTRACTS + [RECORD_ISVALUE]
